@@ -108,9 +108,10 @@ PROPS = {
     "C10": {"components": [{"name": "stream", "driver": "stream", "streams": ["t"]}, {"name": "e2e", "driver": "e2e", "streams": ["e"]}],
             "rule": STREAM_RULE + " | " + E2E_RULE + "; after teardown in either order: handler exit log, goroutine profile", "trusted_base": TB_COMMON, "modelled": STREAM_MODELLED,
             "assumptions": ["'promptly' is a quiescence statement (no reader parked on a stopped stream in any reachable state) plus 2-3 s deadlines in the harness", "poll mode: per-connection teardown is the same code path by a fact read from listen(); Server.Close in poll mode with the connection still open never reaches it (known finding D17)"]},
-    "C04": {"components": [{"name": "server", "driver": "server", "streams": ["s"]}, {"name": "e2e", "driver": "e2e", "streams": ["e"]}],
-            "rule": SRV_RULE + " | " + E2E_RULE, "trusted_base": TB_COMMON, "modelled": SRV_MODELLED + " | " + E2E_MODELLED,
-            "assumptions": ["the peer uses each sequence number once per connection (guaranteed by the client half: K's pending-table invariant)", "Transport/Client never retry: checked by the end-to-end execution counts, not a theorem"]},
+    "C04": {"components": [{"name": "server", "driver": "server", "streams": ["s"]}, {"name": "stream", "driver": "stream", "streams": ["t"]}, {"name": "pool", "driver": "pool", "streams": ["p"]}, {"name": "e2e", "driver": "e2e", "streams": ["e"]}],
+            "rule": SRV_RULE + " | " + STREAM_RULE + " | " + POOL_RULE + " (the scripted server counts how often the request of each call reaches it, incl. connections dropped under a call while the server stays reachable) | " + E2E_RULE,
+            "trusted_base": TB_POOL, "modelled": SRV_MODELLED + " | " + E2E_MODELLED,
+            "assumptions": ["the peer uses each sequence number once per connection (guaranteed by the client half: K's pending-table invariant)", "Transport/Client never retry: in the pool automaton P a call is carried by exactly one connection (model structure) and the scripted server counts arrivals per call; end-to-end execution counts; not a separate theorem"]},
     "C08": {
         "components": [{"name": "wire", "driver": "wire", "streams": ["c08"]}, {"name": "server", "driver": "server", "streams": ["s"]}, {"name": "conn", "driver": "conn", "streams": ["k"]}],
         "rule": "malformed stream: every truncation (≤48 cut points per frame) and single-byte substitutions {00,01,08,7f,80,ff,random} in the first 12 and 4 random positions of valid frames, "
